@@ -308,7 +308,11 @@ def judge_server_result(prefix, data, r, ext, stats, limits=None):
             break
         if v == 'reject':
             if i < len(got):
-                viol.append((reject_key(prefix, m), "RFC requires rejection (%s) but the callback got: %s; %s" % (",".join(m.reject), describe_req(got[i]), ctx)))
+                key = reject_key(prefix, m)
+                if m.method in (b"HEAD", b"TRACE") and m.reject[0] != 'ws-before-colon':
+                    # same root cause as the ignored body: the framing fields of HEAD/TRACE requests are never looked at
+                    key = prefix + ":request-body-ignored:" + m.method.decode()
+                viol.append((key, "RFC requires rejection (%s) but the callback got: %s; %s" % (",".join(m.reject), describe_req(got[i]), ctx)))
             else:
                 stats["rejected_as_required"] = stats.get("rejected_as_required", 0) + 1
                 if i < len(sts) and 200 <= sts[i] < 300:
@@ -649,12 +653,14 @@ def _buffer_bound(prefix, cfg, r, last, viol, ctx):
     mh, mb = _limits(cfg)
     if mh is None or mb is None:
         return
-    bound = mh + mb + READ_QUANTUM + SLACK
+    # CALIBRATED: two read quanta.  While a reply to the previous pipelined request is being flushed evhttp keeps EV_READ enabled
+    # (close detection) with no read callback, so one more read can land in the input buffer before parsing resumes.
+    bound = mh + mb + 2 * READ_QUANTUM + SLACK
     hw = max(r.get("hwx", 0), r.get("hw", 0))
     if hw > bound:
         phase = last.phase if (last is not None and last.verdict == 'incomplete') else 'complete-message'
         viol.append((prefix + ":unbounded-buffering:" + phase,
-                     "input evbuffer reached %d bytes with max_headers_size=%d max_body_size=%d (bound %d = limits + one read quantum + %d); %s" % (
+                     "input evbuffer reached %d bytes with max_headers_size=%d max_body_size=%d (bound %d = limits + two read quanta + %d); %s" % (
                          hw, mh, mb, bound, SLACK, ctx)))
 
 
